@@ -1,5 +1,795 @@
-//! C17 - monitor not written yet.
+//! C17 - no input makes a parser or matcher panic or hang.
+//!
+//! Oracle: "returned" - a panic is caught by `cx.check`, an abort kills the
+//! shard (attributed by the driver), a runaway call trips the per-case step
+//! budget (allocation count/bytes, deterministic) or the wall-clock watchdog.
 
-use crate::fw::Cx;
+use crate::corpus;
+use crate::fw::{allocs_now, show, CaseResult, Cx, Ev, Tier};
+use crate::oracle::pattern as opat;
+use crate::rng::{hash_bytes, Rng};
+use pkgsrc::digest::Digest;
+use pkgsrc::distinfo::{Distinfo, EntryType};
+use pkgsrc::plist::{Plist, PlistEntry};
+use pkgsrc::summary::{Summary, SummaryStream};
+use pkgsrc::{Depend, Dewey, Metadata, MetadataEntry, Pattern, PkgName, PkgPath, ScanIndex};
+use std::io::Write;
+use std::str::FromStr;
 
-pub fn run(_cx: &mut Cx) {}
+const SUMMARY_SEED: &str = "BUILD_DATE=2019-08-12 15:58:02 +0100\nCATEGORIES=devel pkgtools\nCOMMENT=This is a test\nCONFLICTS=foo-[0-9]*\nCONFLICTS=bar>=1<2\nDEPENDS=dep-[0-9]*\nDESCRIPTION=A test description\nDESCRIPTION=\nDESCRIPTION=This is a multi-line variable é€\nFILE_CKSUM=SHA1 a4801e9b26eeb5b8bd1f54bac1c8e89dec67786a\nFILE_NAME=testpkg-1.0.tgz\nFILE_SIZE=1234\nHOMEPAGE=https://example.org/\nLICENSE=isc\nMACHINE_ARCH=x86_64\nOPSYS=Darwin\nOS_VERSION=18.7.0\nPKG_OPTIONS=http2 idn\nPKGNAME=testpkg-1.0nb2\nPKGPATH=pkgtools/testpkg\nPKGTOOLS_VERSION=20091115\nPREV_PKGPATH=obsolete/testpkg\nPROVIDES=/opt/pkg/lib/libfoo.dylib\nREQUIRES=/usr/lib/libSystem.B.dylib\nSIZE_PKG=4321\nSUPERSEDES=oldpkg<1.0\n";
+
+const PLIST_SEED: &str = "@comment $NetBSD$\n\n@name pkgtest-1.0\n@pkgdep dep-pkg1-[0-9]*\n@pkgdep dep-pkg2>=2.0\n@blddep dep-pkg1-1.0nb2\n@pkgcfl cfl-pkg1<2.0\n@display MESSAGE\n@cwd /opt/pkg\n@option preserve\n@mode 0644\n@owner root\n@group wheel\nbin/foo\n@exec echo \"I just installed F=%F D=%D B=%B f=%f\"\n@unexec echo \"I just deleted F=%F\"\n@mode\n@owner\n@group\nbin/bar\nb\n@src /opt\n@cd /usr\n@pkgdir /opt/pkg/share/junk\n@dirrm /opt/pkg/share/obsolete-option\n@ignore\n+BUILD_INFO\n";
+
+const NEAR_MISS: &[&str] = &[
+    // distinfo near-misses (excluded from C10/C11 comparisons)
+    "SHA1 (x)", "Size (x) = 5", "SHA1", "Size", "SHA1 (x) =", "SHA1 () = abc", "Size () = 1 bytes", "( ) = ", "SHA1 ( = )",
+    "Size (x) = +5 bytes", "Size (x) = 007 bytes", "Size (x) = 18446744073709551616 bytes", "Size (x) = -1 bytes",
+    "sha1 (x) = ab", "$NetBSD: ", "$NetBSD$", "$NetBSD: x", "#", " # x", "SHA1 (a b) = c", "SHA1 (x)) = c", "SHA1 ((x) = c",
+    // plist
+    "@", "@ ", "@name", "@name ", "@name  ", "@name\tfoo", "@NAME x", "@ignore x", "@option", "@option foo", "@option preserve ",
+    "@cwd", "@comment", "@comment ", " @name x", "@mode \u{a0}", "@bogus",
+    // summary
+    "BUILD_DATE", "=", "=x", "FILE_SIZE=", "FILE_SIZE=9223372036854775808", "FILE_SIZE=-9223372036854775809", "SIZE_PKG=1.5",
+    "SIZE_PKG= 5", "PKGNAME=", "PKGNAME=-", "PKGNAME=-1", "PKGNAME=a-", "build_date=x", "BUILD_DATE =x",
+    // scanindex
+    "PKGNAME =x", "PKGNAMEX=y", "ALL_DEPENDS=hello", "ALL_DEPENDS=a:b:c", "ALL_DEPENDS=:", "ALL_DEPENDS=x>1>2:../../a/b",
+    "PKG_LOCATION=", "PKG_LOCATION=/a/b", "PKG_LOCATION=a", "ALL_DEPENDS={:a/b", "ALL_DEPENDS=[:a/b",
+    // patterns / names / paths
+    "{", "}", "{}", "{,}", "{{}}", "}{", "{a,b", "a>", ">", "<", "<>", ">=<=", "a>=1<2<3", "[", "]", "[]", "[!]", "[a-]", "***", "**", "a**b",
+    "-", "--", "a-", "-1", "nb", "a-nb", "a-1nb", "a-1nbnb", "a-1nb99999999999999999999", "a-99999999999999999999", "p>99999999999999999999",
+    "../..", "../../", "/", "//", "a//b", "./a/b", "a/./b", "a/b/.", "../../../a/b", ":", "::", "a:b", "a:", ":a/b",
+];
+
+struct Seeds {
+    pattern: Vec<Vec<u8>>,
+    name: Vec<Vec<u8>>,
+    pkgpath: Vec<Vec<u8>>,
+    depend: Vec<Vec<u8>>,
+    summary: Vec<Vec<u8>>,
+    plist: Vec<Vec<u8>>,
+    distinfo: Vec<Vec<u8>>,
+    scanindex: Vec<Vec<u8>>,
+    digestname: Vec<Vec<u8>>,
+    bytes: Vec<Vec<u8>>,
+    metadata: Vec<Vec<u8>>,
+}
+
+fn b(s: &str) -> Vec<u8> {
+    s.as_bytes().to_vec()
+}
+
+fn seeds(mini: bool) -> Seeds {
+    let mut pattern: Vec<Vec<u8>> = vec![
+        b("mutt-[0-9]*"), b("librsvg>=2.12<2.41"), b("{mysql,mariadb,percona}-[0-9]*"), b("foobar-1.0"),
+        b("a-{b,c}-{d{e,f},g}-h>=1"), b("ap24-subversion-1.14.3{,nb[0-9]*}"), b("dovecot>=2.3.21.1{nb*,}"),
+    ];
+    // deep nesting (one expansion) and wide alternation (4096 expansions)
+    pattern.push(format!("{}a{}-1", "{".repeat(if mini { 20 } else { 200 }), "}".repeat(if mini { 20 } else { 200 })).into_bytes());
+    pattern.push(format!("{}-[0-9]*", "{a,b}".repeat(if mini { 5 } else { 12 })).into_bytes());
+    pattern.push(format!("{}>=1", "{a,{b,{c,{d,{e,f}}}}}".repeat(3)).into_bytes());
+    let mut name = vec![b("mutt-2.2.13"), b("librsvg-2.13nb2"), b("p-1.0alpha1beta2rc3pl4_5nb17"), b("foo"), b("a-b-de-h-2")];
+    let mut scanindex = vec![b("PKGNAME=foo-1.0\nALL_DEPENDS=a-[0-9]*:../../cat/a b>=1:../../cat/b\nPKG_LOCATION=cat/foo\nCATEGORIES=cat\n")];
+    let mut distinfo = vec![b("$NetBSD: distinfo,v 1.1 1970/01/01 01:01:01 ken Exp $\n\nBLAKE2s (f\u{e9}.tar.gz) = ab\nSHA512 (f\u{e9}.tar.gz) = cd\nSize (f\u{e9}.tar.gz) = 12 bytes\nSHA1 (patch-aa) = ef\n")];
+    distinfo.push(b"SHA1 (f\xe9.tgz) = 00\nSize (f\xe9.tgz) = 1 bytes\nSHA1 (sub/dir/f.tgz) = 11\nSHA1 (patch-\xff) = 22\n".to_vec());
+    let mut bytes = vec![b("$NetBSD: patch-Makefile,v 1.1 $\n\n--- a\n+++ b\n@@ -1 +1 @@\n-x\n+y $NetBSD$\nlast"), vec![], vec![b'\n'], vec![0u8; 65]];
+    if !mini {
+        let pats = corpus::patterns();
+        for (i, p) in pats.iter().enumerate() {
+            if i % 97 == 0 || p.contains('{') {
+                pattern.push(p.clone().into_bytes());
+            }
+        }
+        for (i, n) in corpus::names().iter().enumerate() {
+            if i % 211 == 0 {
+                name.push(n.clone().into_bytes());
+            }
+        }
+        let idx = corpus::read("pbulk-index.txt");
+        // first three records
+        let text = String::from_utf8_lossy(&idx).into_owned();
+        let mut cut = 0;
+        let mut seen = 0;
+        for (i, _) in text.match_indices("PKGNAME=") {
+            seen += 1;
+            if seen == 4 {
+                cut = i;
+                break;
+            }
+        }
+        if cut > 0 {
+            scanindex.push(text[..cut].as_bytes().to_vec());
+        }
+        distinfo.push(corpus::read("distinfo"));
+        distinfo.push(corpus::read("distinfo.bad"));
+        distinfo.push(corpus::read("distinfo.subdir"));
+        bytes.push(corpus::read("patch-Makefile"));
+        bytes.push(corpus::read("digest.txt"));
+    }
+    Seeds {
+        pattern,
+        name,
+        pkgpath: vec![b("pkgtools/mktools"), b("../../pkgtools/mktools"), b("foo//bar//"), b("..//..//foo//bar")],
+        depend: vec![b("mktools-[0-9]*:../../pkgtools/mktools"), b("a>=1<2:cat/a"), b("{a,b}-[0-9]*:../../cat/ab")],
+        summary: vec![b(SUMMARY_SEED), format!("{SUMMARY_SEED}\n{SUMMARY_SEED}\n").into_bytes()],
+        plist: vec![b(PLIST_SEED), b"bin/foo\nb\n@cwd /\xe9\nf\xe9\n@comment \xff\n".to_vec()],
+        distinfo,
+        scanindex,
+        digestname: vec![b("SHA1"), b("blake2s"), b("RMD160"), b("Sha512"), b("md5"), b("SHA256")],
+        bytes,
+        metadata: vec![b("A comment\n"), b("1234\n"), b("line1\nline2\n\n"), b("  \n"), b("+DESC"), b("+SIZE_PKG")],
+    }
+}
+
+fn rand_unicode(r: &mut Rng, n: usize) -> String {
+    let mut s = String::new();
+    for _ in 0..n {
+        let c = match r.below(10) {
+            0..=4 => (0x20 + r.below(0x5f) as u32) as u8 as char,
+            5 => *r.pick(&['\n', '\t', '\r', '\0', '=', '-', '{', '}', ',', '<', '>', '*', '[', ']', '(', ')', ':', '/', '@', '+', '$', '#']),
+            6 => char::from_u32(0xa0 + r.below(0x60) as u32).unwrap(),
+            7 => char::from_u32(0x4e00 + r.below(0x200) as u32).unwrap(),
+            8 => char::from_u32(0x1f600 + r.below(0x40) as u32).unwrap(),
+            _ => (b'0' + r.below(10) as u8) as char,
+        };
+        s.push(c);
+    }
+    s
+}
+
+fn mutate(r: &mut Rng, mut d: Vec<u8>, other: &[u8], big: bool) -> Vec<u8> {
+    match r.below(14) {
+        0 => {
+            let n = r.below(d.len() + 1);
+            d.truncate(n);
+        }
+        1 => {
+            // truncate just after / before a newline or '='
+            let pos: Vec<usize> = d.iter().enumerate().filter(|(_, c)| matches!(**c, b'\n' | b'=' | b' ' | b'(' | b')')).map(|(i, _)| i).collect();
+            if !pos.is_empty() {
+                let p = *r.pick(&pos);
+                d.truncate(p + r.below(2));
+            }
+        }
+        2 => {
+            // duplicate a line
+            let lines: Vec<&[u8]> = d.split(|c| *c == b'\n').collect();
+            let l = lines[r.below(lines.len())].to_vec();
+            let at = r.below(lines.len());
+            let mut out: Vec<u8> = vec![];
+            for (i, ln) in lines.iter().enumerate() {
+                if i == at {
+                    out.extend_from_slice(&l);
+                    out.push(b'\n');
+                }
+                out.extend_from_slice(ln);
+                if i + 1 < lines.len() {
+                    out.push(b'\n');
+                }
+            }
+            d = out;
+        }
+        3 => {
+            // splice with another document
+            let a = r.below(d.len() + 1);
+            let bpos = r.below(other.len() + 1);
+            d.truncate(a);
+            d.extend_from_slice(&other[bpos..]);
+        }
+        4 => {
+            // inflate a number
+            if let Some(i) = d.iter().position(|c| c.is_ascii_digit()) {
+                let start = if r.chance(1, 2) { i } else { d.iter().rposition(|c| c.is_ascii_digit()).unwrap_or(i) };
+                let big_num: &[u8] = match r.below(6) {
+                    0 => b"9223372036854775807",
+                    1 => b"9223372036854775808",
+                    2 => b"99999999999999999999",
+                    3 => b"0000000000000000000000000000000000000001",
+                    4 => b"-1",
+                    _ => b"+18446744073709551616",
+                };
+                d.splice(start..start + 1, big_num.iter().cloned());
+            }
+        }
+        5 => {
+            // inject non-UTF-8 / NUL / latin-1 blanks
+            let i = r.below(d.len() + 1);
+            let inj: &[u8] = match r.below(8) {
+                0 => b"\0",
+                1 => b"\xff",
+                2 => b"\xc3",
+                3 => b"\xe9",
+                4 => b"\x85",
+                5 => b"\xa0",
+                6 => b"\xf0\x9f\x98",
+                _ => b"\xed\xa0\x80",
+            };
+            d.splice(i..i, inj.iter().cloned());
+        }
+        6 => {
+            if !d.is_empty() {
+                let i = r.below(d.len());
+                d[i] = r.byte();
+            }
+        }
+        7 => {
+            if !d.is_empty() {
+                let i = r.below(d.len());
+                d.remove(i);
+            }
+        }
+        8 => {
+            // insert a structural character
+            let i = r.below(d.len() + 1);
+            d.insert(i, *r.pick(b"\n\n=-{},<>*[]():/@ \t#$+."));
+        }
+        9 => {
+            // insert a near-miss line
+            let nm = NEAR_MISS[r.below(NEAR_MISS.len())].as_bytes();
+            let pos: Vec<usize> = std::iter::once(0).chain(d.iter().enumerate().filter(|(_, c)| **c == b'\n').map(|(i, _)| i + 1)).collect();
+            let p = *r.pick(&pos);
+            let mut ins = nm.to_vec();
+            ins.push(b'\n');
+            d.splice(p..p, ins);
+        }
+        10 => {
+            // swap two lines
+            let mut lines: Vec<Vec<u8>> = d.split(|c| *c == b'\n').map(|l| l.to_vec()).collect();
+            if lines.len() >= 2 {
+                let (i, j) = (r.below(lines.len()), r.below(lines.len()));
+                lines.swap(i, j);
+            }
+            d = lines.join(&b'\n');
+        }
+        11 => {
+            // very long line / token
+            let n = if big { *r.pick(&[1000usize, 8192, 65536]) } else { 300 };
+            let c = *r.pick(b"a1 -.=\xe9{");
+            let i = r.below(d.len() + 1);
+            let c = if c == b'{' { b'x' } else { c };
+            d.splice(i..i, std::iter::repeat(c).take(n));
+        }
+        12 => {
+            // drop all newlines / CRLF
+            if r.chance(1, 2) {
+                d.retain(|c| *c != b'\n');
+            } else {
+                let mut o = vec![];
+                for c in d {
+                    if c == b'\n' {
+                        o.push(b'\r');
+                    }
+                    o.push(c);
+                }
+                d = o;
+            }
+        }
+        _ => {
+            // repeat the whole document
+            let k = r.range(2, 4);
+            let one = d.clone();
+            for _ in 1..k {
+                d.extend_from_slice(&one);
+            }
+        }
+    }
+    d
+}
+
+fn gen_input(r: &mut Rng, seeds: &[Vec<u8>], big: bool) -> (Vec<u8>, &'static str) {
+    match r.below(20) {
+        0 | 1 => {
+            let n = if r.chance(1, 10) { r.below(4096) } else { r.below(64) };
+            (r.bytes(n), "random-bytes")
+        }
+        2 | 3 => {
+            let n = if r.chance(1, 10) { r.below(1000) } else { r.below(40) };
+            (rand_unicode(r, n).into_bytes(), "random-unicode")
+        }
+        4 | 5 => (NEAR_MISS[r.below(NEAR_MISS.len())].as_bytes().to_vec(), "near-miss"),
+        6 => (r.pick(seeds).clone(), "seed-verbatim"),
+        _ => {
+            let mut d = r.pick(seeds).clone();
+            let other = r.pick(seeds).clone();
+            for _ in 0..r.range(1, 3) {
+                d = mutate(r, d, &other, big);
+            }
+            (d, "mutated-document")
+        }
+    }
+}
+
+fn lossy(b: &[u8]) -> String {
+    String::from_utf8_lossy(b).into_owned()
+}
+
+fn measure<F: FnOnce()>(ev: &mut Ev, entry: &str, len: usize, f: F) {
+    let a0 = allocs_now();
+    f();
+    let da = allocs_now() - a0;
+    ev.count(&format!("calls/{entry}"));
+    ev.max(&format!("max/allocs/{entry}"), da);
+    ev.max(&format!("max/allocs-per-input-byte-x100/{entry}"), da * 100 / (len as u64 + 16));
+    ev.eval();
+}
+
+fn names_for(r: &mut Rng, p: &str, pool: &[Vec<u8>]) -> Vec<String> {
+    let mut v = vec![String::new(), p.to_string()];
+    let stripped: String = p.chars().filter(|c| !matches!(c, '{' | '}' | ',' | '*' | '[' | ']' | '?')).collect();
+    v.push(stripped.replace(">=", "-").replace("<=", "-").replace(['<', '>'], "-"));
+    v.push(format!("{}-1.0", p.chars().take(6).collect::<String>()));
+    for _ in 0..3 {
+        v.push(lossy(&pool[r.below(pool.len())]));
+    }
+    v.push("p-99999999999999999999999".into());
+    v
+}
+
+fn drive_pattern(p: &str, names: &[String], do_match: bool) -> bool {
+    let r = Pattern::new(p);
+    match &r {
+        Ok(pat) => {
+            let _ = pat.pattern();
+            if do_match {
+                for n in names {
+                    let _ = pat.matches(n);
+                }
+                for w in names.windows(2) {
+                    let _ = pat.best_match(&w[0], &w[1]);
+                }
+            }
+        }
+        Err(e) => {
+            let _ = e.to_string();
+        }
+    }
+    match Dewey::new(p) {
+        Ok(d) => {
+            for n in names {
+                let _ = d.matches(n);
+            }
+        }
+        Err(e) => {
+            let _ = (e.to_string(), e.pos, e.msg);
+        }
+    }
+    r.is_ok()
+}
+
+fn drive_summary_calls(ev: &mut Ev, r: &mut Rng, n: usize) -> CaseResult {
+    let mut s = Summary::new();
+    let vals = ["", "x", "a=b", "é€", " ", "1", "-1", "foo-1.0", "-", "a-", "-b", "nb", "x\ny"];
+    for _ in 0..n {
+        let v = vals[r.below(vals.len())];
+        let lst: Vec<String> = (0..r.below(3)).map(|_| vals[r.below(vals.len())].to_string()).collect();
+        let i = [0i64, 1, -1, i64::MAX, i64::MIN][r.below(5)];
+        match r.below(60) {
+            0 => s.set_build_date(v),
+            1 => s.set_categories(v),
+            2 => s.set_comment(v),
+            3 => s.set_conflicts(&lst),
+            4 => s.set_depends(&lst),
+            5 => s.set_description(&lst),
+            6 => s.set_file_cksum(v),
+            7 => s.set_file_name(v),
+            8 => s.set_file_size(i),
+            9 => s.set_homepage(v),
+            10 => s.set_license(v),
+            11 => s.set_machine_arch(v),
+            12 => s.set_opsys(v),
+            13 => s.set_os_version(v),
+            14 => s.set_pkg_options(v),
+            15 => s.set_pkgname(v),
+            16 => s.set_pkgpath(v),
+            17 => s.set_pkgtools_version(v),
+            18 => s.set_prev_pkgpath(v),
+            19 => s.set_provides(&lst),
+            20 => s.set_requires(&lst),
+            21 => s.set_size_pkg(i),
+            22 => s.set_supersedes(&lst),
+            23 => s.push_conflicts(v),
+            24 => s.push_depends(v),
+            25 => s.push_description(v),
+            26 => s.push_provides(v),
+            27 => s.push_requires(v),
+            28 => s.push_supersedes(v),
+            29 => drop(s.build_date()),
+            30 => drop(s.categories()),
+            31 => drop(s.comment()),
+            32 => drop(s.conflicts()),
+            33 => drop(s.depends()),
+            34 => drop(s.description()),
+            35 => drop(s.description_as_str()),
+            36 => drop(s.file_cksum()),
+            37 => drop(s.file_name()),
+            38 => drop(s.file_size()),
+            39 => drop(s.homepage()),
+            40 => drop(s.license()),
+            41 => drop(s.machine_arch()),
+            42 => drop(s.opsys()),
+            43 => drop(s.os_version()),
+            44 => drop(s.pkg_options()),
+            45 => drop(s.pkgname()),
+            46 => drop(s.pkgbase()),
+            47 => drop(s.pkgversion()),
+            48 => drop(s.pkgpath()),
+            49 => drop(s.pkgtools_version()),
+            50 => drop(s.prev_pkgpath()),
+            51 => drop(s.provides()),
+            52 => drop(s.requires()),
+            53 => drop(s.size_pkg()),
+            54 => drop(s.supersedes()),
+            55 => drop(s.is_completed()),
+            56 => drop(format!("{s}")),
+            57 => drop(format!("{s:?}")),
+            58 => s = s.clone(),
+            _ => drop(Summary::from_str(&format!("{s}"))),
+        }
+        ev.count("calls/summary-call-sequence-steps");
+    }
+    ev.count("calls/summary-call-sequence");
+    ev.eval();
+    Ok(())
+}
+
+fn drive_pkgdb(ev: &mut Ev, r: &mut Rng, root: &std::path::Path) -> CaseResult {
+    use std::fs;
+    let _ = fs::remove_dir_all(root);
+    fs::create_dir_all(root).map_err(|e| format!("harness: mkdir: {e}"))?;
+    let n = r.below(6);
+    let mut expect_dirs = 0;
+    for i in 0..n {
+        let name = match r.below(8) {
+            0 => format!("nodash{i}"),
+            1 => format!("pkg{i}-1.0nb{i}"),
+            2 => format!("a-b-c{i}-2"),
+            3 => format!("-{i}"),
+            4 => format!("x{i}-"),
+            5 => format!("é{i}-1"),
+            _ => format!("pkg{i}-{i}.0"),
+        };
+        let dir = root.join(&name);
+        if r.chance(1, 8) {
+            fs::write(&dir, b"stray file").map_err(|e| format!("harness: write: {e}"))?;
+            continue;
+        }
+        fs::create_dir_all(&dir).map_err(|e| format!("harness: mkdir: {e}"))?;
+        expect_dirs += 1;
+        for f in ["+COMMENT", "+CONTENTS", "+DESC", "+SIZE_PKG", "+SIZE_ALL", "+BUILD_INFO", "+REQUIRED_BY"] {
+            if r.chance(5, 6) {
+                let content: Vec<u8> = match r.below(5) {
+                    0 => vec![],
+                    1 => b"abc\n".to_vec(),
+                    2 => b"12345\n".to_vec(),
+                    3 => b"\xff\xfe not utf8\n".to_vec(),
+                    _ => b"99999999999999999999\n".to_vec(),
+                };
+                fs::write(dir.join(f), content).map_err(|e| format!("harness: write: {e}"))?;
+            }
+        }
+    }
+    // non-UTF-8 directory name
+    if r.chance(1, 4) {
+        use std::os::unix::ffi::OsStrExt;
+        let d = root.join(std::ffi::OsStr::from_bytes(b"bad\xff-1.0"));
+        fs::create_dir_all(&d).map_err(|e| format!("harness: mkdir: {e}"))?;
+        for f in ["+COMMENT", "+CONTENTS", "+DESC"] {
+            fs::write(d.join(f), b"x").map_err(|e| format!("harness: write: {e}"))?;
+        }
+        expect_dirs += 1;
+    }
+    let open = match r.below(6) {
+        0 => root.join("does-not-exist"),
+        1 => {
+            let f = root.join("plainfile");
+            fs::write(&f, b"x").map_err(|e| format!("harness: write: {e}"))?;
+            f
+        }
+        _ => root.to_path_buf(),
+    };
+    let a0 = allocs_now();
+    match pkgsrc::pkgdb::PkgDB::open(&open) {
+        Err(_) => ev.count("outcome/pkgdb/open-err"),
+        Ok(db) => {
+            let mut items = 0;
+            for item in db {
+                items += 1;
+                if items > expect_dirs + 8 {
+                    return Err(format!("PkgDB iteration yielded {items} items for {expect_dirs} directories: does not terminate?").into());
+                }
+                if let Ok(pkg) = item {
+                    let _ = (pkg.pkgname(), pkg.pkgbase(), pkg.pkgversion());
+                    let mut md = Metadata::new();
+                    for e in all_entries() {
+                        let fname = e.to_filename().to_string();
+                        if let Ok(text) = pkg.read_metadata(e) {
+                            if let Some(e2) = MetadataEntry::from_filename(&fname) {
+                                let _ = md.read_metadata(e2, &text);
+                            }
+                        }
+                    }
+                    let _ = md.is_valid();
+                }
+            }
+            ev.count("outcome/pkgdb/iterated");
+        }
+    }
+    ev.max("max/allocs/pkgdb", allocs_now() - a0);
+    ev.count("calls/pkgdb");
+    ev.eval();
+    let _ = fs::remove_dir_all(root);
+    Ok(())
+}
+
+fn all_entries() -> Vec<MetadataEntry> {
+    vec![
+        MetadataEntry::BuildInfo, MetadataEntry::BuildVersion, MetadataEntry::Comment, MetadataEntry::Contents,
+        MetadataEntry::DeInstall, MetadataEntry::Desc, MetadataEntry::Display, MetadataEntry::Install,
+        MetadataEntry::InstalledInfo, MetadataEntry::MtreeDirs, MetadataEntry::Preserve, MetadataEntry::RequiredBy,
+        MetadataEntry::SizeAll, MetadataEntry::SizePkg,
+    ]
+}
+
+struct FailingReader<'a> {
+    data: &'a [u8],
+    pos: usize,
+    chunk: usize,
+    fail_at: Option<usize>,
+    reads: usize,
+}
+
+impl<'a> std::io::Read for FailingReader<'a> {
+    fn read(&mut self, buf: &mut [u8]) -> std::io::Result<usize> {
+        self.reads += 1;
+        if Some(self.reads) == self.fail_at {
+            return Err(std::io::Error::new(std::io::ErrorKind::Other, "injected"));
+        }
+        if self.reads % 5 == 3 {
+            return Err(std::io::Error::new(std::io::ErrorKind::Interrupted, "injected EINTR"));
+        }
+        let n = self.chunk.min(buf.len()).min(self.data.len() - self.pos);
+        buf[..n].copy_from_slice(&self.data[self.pos..self.pos + n]);
+        self.pos += n;
+        Ok(n)
+    }
+}
+
+const ENTRIES: [&str; 15] = [
+    "pattern", "pkgname", "pkgpath", "depend", "summary", "summary-stream", "plist", "plist-entry", "distinfo",
+    "scanindex", "digest-name", "hashers", "metadata", "pkgdb", "summary-call-sequence",
+];
+
+pub fn run(cx: &mut Cx) {
+    let mini = cx.tier == Tier::Mini;
+    let sd = seeds(mini);
+    for e in ENTRIES {
+        if mini && e == "pkgdb" {
+            continue;
+        }
+        cx.ev.require(&format!("calls/{e}"));
+    }
+    let big = matches!(cx.tier, Tier::Quick | Tier::Thorough);
+    let rounds = cx.per_shard(96, 1_500, 30_000, 400_000);
+    let mut r = cx.stream("inputs");
+    let scratch = cx.scratch.clone();
+    for round in 0..rounds {
+        for (ei, entry) in ENTRIES.iter().enumerate() {
+            // the file-system and hashing entries are slower: run them less often
+            if matches!(*entry, "pkgdb") && (mini || round % 8 != 0) {
+                continue;
+            }
+            if matches!(*entry, "hashers") && round % 4 != 0 {
+                continue;
+            }
+            let seedset: &[Vec<u8>] = match *entry {
+                "pattern" => &sd.pattern,
+                "pkgname" => &sd.name,
+                "pkgpath" => &sd.pkgpath,
+                "depend" => &sd.depend,
+                "summary" | "summary-stream" => &sd.summary,
+                "plist" | "plist-entry" => &sd.plist,
+                "distinfo" => &sd.distinfo,
+                "scanindex" => &sd.scanindex,
+                "digest-name" => &sd.digestname,
+                "hashers" => &sd.bytes,
+                "metadata" => &sd.metadata,
+                _ => &sd.bytes,
+            };
+            let (input, class) = gen_input(&mut r, seedset, big);
+            let mut aux = Rng::new(hash_bytes(&input) ^ ei as u64);
+            let len = input.len();
+            // Step budget: generous and proportional to the input; for
+            // alternations proportional to the number of expansions.
+            let mut do_match = true;
+            let mut budget: u64 = 200_000 + 400 * len as u64;
+            if *entry == "pattern" || *entry == "depend" {
+                let p = lossy(&input);
+                if p.contains('{') && opat::braces_nested(&p) {
+                    let ex = opat::count_expansions(&p, 4096);
+                    if ex > 4096 || len > 4096 {
+                        do_match = false; // specification-sized blow-up: compile only
+                    } else {
+                        budget += 64 * (ex as u64 + 1) * (len as u64 + 8);
+                    }
+                }
+            }
+            cx.set_budget(budget, 1 << 31);
+            let root = scratch.join(format!("db{}", round % 4));
+            cx.check(
+                || format!("{entry} <- {class} ({} bytes): {}", len, show(&input[..len.min(300)])),
+                |ev| {
+                    ev.count(&format!("class/{class}"));
+                    if class != "seed-verbatim" {
+                        ev.nontrivial(hash_bytes(&input) ^ (ei as u64).wrapping_mul(0x9E3779B97F4A7C15));
+                    }
+                    match *entry {
+                        "pattern" => {
+                            let p = lossy(&input);
+                            let names = names_for(&mut aux, &p, &sd.name);
+                            let mut ok = false;
+                            measure(ev, entry, len, || ok = drive_pattern(&p, &names, do_match));
+                            ev.count(if ok { "outcome/pattern/ok" } else { "outcome/pattern/err" });
+                        }
+                        "pkgname" => {
+                            let s = lossy(&input);
+                            measure(ev, entry, len, || {
+                                let n = PkgName::new(&s);
+                                let _ = (n.pkgname(), n.pkgbase(), n.pkgversion(), n.pkgrevision());
+                                // names are also the right-hand side of matches
+                                if let Ok(p) = Pattern::new("*-[0-9]*") {
+                                    let _ = p.matches(&s);
+                                    let _ = p.best_match(&s, "a-1");
+                                }
+                                if let Ok(p) = Pattern::new("p>=1") {
+                                    let _ = p.matches(&s);
+                                }
+                            });
+                        }
+                        "pkgpath" => {
+                            let s = lossy(&input);
+                            measure(ev, entry, len, || {
+                                if let Ok(p) = PkgPath::new(&s) {
+                                    let _ = (p.as_path(), p.as_full_path());
+                                }
+                                let _ = PkgPath::from_str(&s);
+                            });
+                        }
+                        "depend" => {
+                            let s = lossy(&input);
+                            measure(ev, entry, len, || {
+                                if let Ok(d) = Depend::new(&s) {
+                                    let _ = (d.pattern().pattern(), d.pkgpath().as_path());
+                                    if do_match {
+                                        let _ = d.pattern().matches("a-1.0");
+                                    }
+                                }
+                            });
+                        }
+                        "summary" => {
+                            let s = lossy(&input);
+                            measure(ev, entry, len, || match Summary::from_str(&s) {
+                                Ok(sum) => {
+                                    let _ = format!("{sum}");
+                                    let _ = (sum.pkgbase(), sum.pkgversion(), sum.is_completed(), sum.description_as_str());
+                                }
+                                Err(e) => {
+                                    let _ = e.to_string();
+                                }
+                            });
+                        }
+                        "summary-stream" => {
+                            // at most 64 write calls per stream (write() rescans its buffer)
+                            let chunk = if len == 0 { 1 } else { (len / (1 + aux.below(64))).max(1) };
+                            measure(ev, entry, len, || {
+                                let mut st = SummaryStream::new();
+                                let mut failed = false;
+                                for c in input.chunks(chunk) {
+                                    if st.write(c).is_err() {
+                                        failed = true;
+                                        break;
+                                    }
+                                }
+                                let _ = st.write(b"");
+                                let _ = st.flush();
+                                let _ = (format!("{st}"), st.entries().len(), failed);
+                                let _ = st.entries_mut().len();
+                            });
+                        }
+                        "plist" => measure(ev, entry, len, || match Plist::from_bytes(&input) {
+                            Ok(p) => {
+                                let _ = (p.pkgname(), p.display(), p.depends(), p.build_depends(), p.conflicts());
+                                let _ = (p.pkgdirs(), p.pkgrmdirs(), p.files(), p.files_prefixed());
+                                let _ = (p.install_cmds().len(), p.uninstall_cmds().len(), p.is_preserve());
+                                let _ = format!("{p:?}");
+                            }
+                            Err(e) => {
+                                let _ = e.to_string();
+                            }
+                        }),
+                        "plist-entry" => {
+                            // a single line of the document
+                            let lines: Vec<&[u8]> = input.split(|c| *c == b'\n').collect();
+                            let l = lines[aux.below(lines.len())];
+                            measure(ev, entry, l.len(), || {
+                                let _ = PlistEntry::from_bytes(l).map_err(|e| e.to_string());
+                                let _ = PlistEntry::from_bytes(&input).map_err(|e| e.to_string());
+                            });
+                        }
+                        "distinfo" => measure(ev, entry, len, || {
+                            let d = Distinfo::from_bytes(&input);
+                            let _ = d.rcsid();
+                            let out = d.as_bytes();
+                            let _ = Distinfo::from_bytes(&out);
+                            let mut probes: Vec<std::path::PathBuf> = vec!["".into(), "/".into(), "a/b/c".into(), "patch-aa".into(), "x/../y".into()];
+                            for e in d.distfiles().iter().chain(d.patchfiles().iter()) {
+                                let _ = e.as_bytes();
+                                probes.push(e.filename.clone());
+                                probes.push(std::path::Path::new("/tmp/distdir").join(&e.filename));
+                                let _ = (e.size, e.checksums.len(), &e.filetype);
+                            }
+                            for p in &probes {
+                                let _ = d.find_entry(p).map(|e| e.filename.clone()).map_err(|e| e.to_string());
+                                let _ = (d.get_distfile(p).is_some(), d.get_patchfile(p).is_some());
+                                let _ = EntryType::from(p);
+                            }
+                        }),
+                        "scanindex" => {
+                            let chunk = 1 + aux.below(64);
+                            let fail_at = if aux.chance(1, 3) { Some(1 + aux.below(20)) } else { None };
+                            measure(ev, entry, len, || {
+                                let _ = ScanIndex::from_reader(&input[..]).map(|v| v.len()).map_err(|e| e.to_string());
+                                let fr = FailingReader { data: &input, pos: 0, chunk, fail_at, reads: 0 };
+                                let _ = ScanIndex::from_reader(std::io::BufReader::with_capacity(1 + chunk, fr)).map(|v| v.len());
+                            });
+                        }
+                        "digest-name" => {
+                            let s = lossy(&input);
+                            measure(ev, entry, len, || match Digest::from_str(&s) {
+                                Ok(d) => {
+                                    let _ = d.to_string();
+                                }
+                                Err(e) => {
+                                    let _ = e.to_string();
+                                }
+                            });
+                        }
+                        "hashers" => {
+                            let s = lossy(&input);
+                            let chunk = 1 + aux.below(200);
+                            let fail_at = if aux.chance(1, 3) { Some(1 + aux.below(10)) } else { None };
+                            measure(ev, entry, len, || {
+                                for d in [Digest::BLAKE2s, Digest::MD5, Digest::RMD160, Digest::SHA1, Digest::SHA256, Digest::SHA512] {
+                                    let _ = d.hash_str(&s);
+                                    let _ = d.hash_file(&mut &input[..]);
+                                    let _ = d.hash_patch(&mut &input[..]);
+                                    let mut fr = FailingReader { data: &input, pos: 0, chunk, fail_at, reads: 0 };
+                                    let _ = d.hash_file(&mut fr);
+                                    let mut fr = FailingReader { data: &input, pos: 0, chunk, fail_at, reads: 0 };
+                                    let _ = d.hash_patch(&mut fr);
+                                }
+                            });
+                        }
+                        "metadata" => {
+                            let s = lossy(&input);
+                            measure(ev, entry, len, || {
+                                let mut md = Metadata::new();
+                                for e in all_entries() {
+                                    let _ = md.read_metadata(e, &s);
+                                }
+                                let _ = md.is_valid();
+                                let _ = (md.comment(), md.size_pkg(), md.build_info());
+                                if let Some(e) = MetadataEntry::from_filename(&s) {
+                                    let _ = e.to_filename();
+                                }
+                            });
+                        }
+                        "pkgdb" => return drive_pkgdb(ev, &mut aux, &root),
+                        _ => return drive_summary_calls(ev, &mut aux, 60),
+                    }
+                    Ok(())
+                },
+            );
+        }
+    }
+    cx.default_budget();
+}
+
